@@ -254,6 +254,157 @@ def real_history(ctx, idx):
         ctx.cov["traces_validated_against_impl"] += 1
 
 
+DIAG_TEXTS = {
+    "main.oal": ['use "lib.oal";\nres /a on get -> <t>;\n', 'use "lib.oal";\nres /a on get -> <zz>;\n', 'res /a on get -> <str>;\n',
+                 'use "lib.oal";\nres /a on get -> <t> ;;\n', 'use "lib.oal";\nuse "other.oal";\nres /a on get -> <t> :: <status=404, o>;\n',
+                 'use "gone.oal";\nres / on get -> <>;\n'],
+    "lib.oal": ["let t = { 'n num };\n", "let t = { 'n nope };\n", "let t = { 'n num }\n", "let t = <> & {};\n"],
+    "other.oal": ["let o = str;\n", "let o = ;\n", "let o = q;\n"],
+}
+
+
+def gen_diag_history(rng):
+    """events on a three-file folder: main imports lib (and sometimes other); texts with and without errors"""
+    disk = {n: ts[0] for n, ts in DIAG_TEXTS.items()}
+    if rng.random() < 0.35:
+        # a document with an error leaves the program and the store between two refreshes
+        x = rng.choice(["lib.oal", "other.oal"])
+        imp = rng.choice([0, 1, 3]) if x == "lib.oal" else 4
+        out = [2] if x == "lib.oal" else [0, 1, 2, 3]
+        events = [{"open": "main.oal", "text": DIAG_TEXTS["main.oal"][imp]}, {"open": x, "text": rng.choice(DIAG_TEXTS[x][1:])}]
+        rng.shuffle(events)
+        events.append({"refresh": True})
+        tail = [{"close": x}, {"change": "main.oal", "text": DIAG_TEXTS["main.oal"][rng.choice(out)]}]
+        rng.shuffle(tail)
+        if rng.random() < 0.3:
+            tail.insert(1, {"refresh": True})
+        events += tail + [{"refresh": True}]
+        return disk, events, final_open(events)
+    if rng.random() < 0.3:
+        disk["lib.oal"] = rng.choice(DIAG_TEXTS["lib.oal"])
+    events = []
+    opened = {}
+    for _ in range(rng.randint(2, 9)):
+        n = rng.choice(list(DIAG_TEXTS))
+        if n in opened and rng.random() < 0.35:
+            events.append({"close": n})
+            del opened[n]
+        elif n in opened:
+            t = rng.choice(DIAG_TEXTS[n])
+            events.append({"change": n, "text": t})
+            opened[n] = t
+        else:
+            t = rng.choice(DIAG_TEXTS[n])
+            events.append({"open": n, "text": t})
+            opened[n] = t
+        if rng.random() < 0.5:          # the server refreshes when idle: several notifications may precede a refresh
+            events.append({"refresh": True})
+    events.append({"refresh": True})
+    return disk, events, opened
+
+
+def diag_view(steps):
+    """the client: a notification replaces the diagnostics of its document"""
+    view = {}
+    for st in steps:
+        if isinstance(st.get("pubs"), dict):
+            for k, v in st["pubs"].items():
+                view[k] = v
+    return {k: v for k, v in view.items() if v}
+
+
+def final_open(events):
+    opened = {}
+    for ev in events:
+        if "open" in ev:
+            opened[ev["open"]] = ev["text"]
+        elif "change" in ev and ev["change"] in opened:
+            opened[ev["change"]] = ev["text"]
+        elif "close" in ev:
+            opened.pop(ev["close"], None)
+    return opened
+
+
+def diag_tie(ctx, fixed=None):
+    """Model/Diag.v vs Workspace::diagnostics after every event of a history (same published batch, as a map),
+    and the client's final view vs the one of a fresh workspace handed the final texts"""
+    n = 120 if ctx.thorough else 30
+    reqs, metas = [], []
+    todo = fixed if fixed is not None else [gen_diag_history(ctx.rng)[:2] for _ in range(n)]
+    for i, (disk, events) in enumerate(todo):
+        opened = final_open(events)
+        for tag, evs in (("h", events), ("f", [{"open": k, "text": t} for k, t in opened.items()] + [{"refresh": True}])):
+            root = lspws.fresh_dir("c15_diag_%d_%s" % (i, tag))
+            lsp.write_workspace(root, disk)
+            reqs.append(json.dumps({"root": root, "events": evs}))
+        metas.append({"disk": disk, "events": events})
+    outs = core.run_stateless(core.IMPL, "lspdiag", reqs)
+    # messages quote absolute locators: make them relative to the folder
+    outs = [o.replace(json.loads(rq)["root"], "<root>") if isinstance(o, str) else o for o, rq in zip(outs, reqs)]
+    lines, where = [], []
+    results = []
+    for j, o in enumerate(outs):
+        try:
+            r = json.loads(o)
+        except Exception:
+            r = {"status": str(o)[:80]}
+        results.append(r)
+    for i, meta in enumerate(metas):
+        rh, rf = results[2 * i], results[2 * i + 1]
+        ctx.cov["evaluations"] += 1
+        if rh.get("status") != "ok" or rf.get("status") != "ok":
+            ctx.violation("the workspace dies while refreshing diagnostics", meta, "ok", [rh.get("status"), rf.get("status"), str(rh.get("msg"))[:200]])
+            continue
+        vh, vf = diag_view(rh["steps"]), diag_view(rf["steps"])
+        if vh != vf:
+            ctx.violation("after a history of events the diagnostics shown to the client differ from those of a fresh server handed the final texts "
+                          "(stale diagnostics not cleared, or current ones missing)", meta, vf, vh)
+            continue
+        if any(st["pubs"] and any(not v for v in st["pubs"].values()) for st in rh["steps"]) and len(rh["steps"]) > 2:
+            ctx.count("diag_histories_with_clearing")
+        # the model, step by step
+        names, dids = {}, {}
+        reported = []
+        for k, st in enumerate(rh["steps"]):
+            if not isinstance(st.get("pubs"), dict) or "error" in st["pubs"]:
+                break
+            for nme in list(st["docs"]) + list(st["pubs"]):
+                names.setdefault(nme, len(names) + 1)
+            errs = []
+            for nme, ds in st["pubs"].items():
+                for d in ds:
+                    dids.setdefault((nme, d), len(dids) + 1)
+                    errs.append((names[nme], dids[(nme, d)]))
+            lines.append("D %s | R %s | E %s" % (" ".join(str(names[x]) for x in st["docs"]), " ".join(str(x) for x in reported),
+                                                 " ".join("%d %d" % e for e in errs)))
+            want = {names[nme]: [dids[(nme, d)] for d in ds] for nme, ds in st["pubs"].items()}
+            reported = sorted(names[nme] for nme, ds in st["pubs"].items() if ds)
+            where.append((i, k, want, reported))
+    mouts = core.run_stateless(core.RUNNER, "diag", lines) if lines else []
+    for (i, k, want, rep), mo in zip(where, mouts):
+        if mo is None or mo == "SKIPPED":
+            continue
+        try:
+            b, r = mo.split("|")
+            got = {}
+            for ent in b.strip().split(";"):
+                if ent:
+                    l, ds = ent.split("=")
+                    got[int(l)] = [int(x) for x in ds.split(",") if x]
+            grep = sorted(int(x) for x in r.split())
+        except Exception:
+            ctx.broken.append("diagnostics tie: unreadable model output %r" % (mo,))
+            continue
+        if got != want or grep != rep:
+            ctx.count("diag_tie_disagreements")
+            if len(ctx.broken) < 10:
+                ctx.broken.append("diagnostics tie: Model/Diag.v and Workspace::diagnostics publish different batches at step %d of %s: model %s vs code %s"
+                                  % (k, json.dumps(metas[i])[:900], got, want))
+        else:
+            ctx.count("diag_tie_steps_agree")
+            ctx.cov["traces_validated_against_impl"] += 1
+
+
 def check(ctx):
     ctx.proof = core.proof_stage("C15", thorough=ctx.thorough)
     ok, out = core.ensure_runner()
@@ -266,6 +417,8 @@ def check(ctx):
         return core.finish(ctx)
     if ctx.replay:
         v = json.load(open(ctx.replay))
+        if "events" in v["input"]:
+            diag_tie(ctx, fixed=[(v["input"]["disk"], v["input"]["events"])])
         if "history" in v["input"]:
             o = core.run_stateless(core.IMPL, "lspdoc", [v["input"]["history"]])[0]
             core.log("impl: " + str(o))
@@ -308,6 +461,8 @@ def check(ctx):
             ctx.count("wild" if wild else "well_formed")
         if i in (3, 10, 100):
             ctx.sample({"history": l[:300], "impl": str(o)[:200]})
+    # diagnostics bookkeeping: model = code, history = fresh
+    diag_tie(ctx)
     # real binary
     for k in range(40 if ctx.thorough else 10):
         real_history(ctx, k)
